@@ -228,19 +228,19 @@ pub fn run(tier: Tier) -> i32 {
         if samples.len() < 2 && k % 501 == 7 {
             samples.push(json!({"program": names, "variant": vname, "result": crate::emu::first_line(&d[0].result), "instructions": d[0].count}));
         }
-        let w = || json!({"engine": "c20", "case": k, "program": names, "bytes": crate::common::hex(code), "variant": variant});
+        let w = |key: &str| json!({"engine": "c20", "key": key, "case": k, "program": names, "bytes": crate::common::hex(code), "variant": variant});
         for m in 1..3 {
             if d[m] != d[0] {
                 let what = d[0].diff(&d[m]);
                 let key = format!("determinism|in-process|{vname}|{what}");
-                findings.add(&key, || format!("two machines built the same way disagree on {what} after {:?}: {:?} vs {:?}", names, crate::emu::first_line(&d[0].result), crate::emu::first_line(&d[m].result)), w);
+                findings.add(&key, || format!("two machines built the same way disagree on {what} after {:?}: {:?} vs {:?}", names, crate::emu::first_line(&d[0].result), crate::emu::first_line(&d[m].result)), || w(&key));
             }
         }
         match other.get(k) {
             Some(h) if *h == d[0].hash() => {}
             Some(_) => {
                 let key = format!("determinism|cross-process|{vname}");
-                findings.add(&key, || format!("a second process reaches a different final state / error text for {:?}", names), w);
+                findings.add(&key, || format!("a second process reaches a different final state / error text for {:?}", names), || w(&key));
             }
             None => crate::common::machinery_error("second-process pass produced too few digests"),
         }
@@ -282,6 +282,10 @@ pub fn run(tier: Tier) -> i32 {
         });
         keys.sort();
         keys.dedup();
+        // nondeterminism is the violation itself: which other observables differ may vary from
+        // replay to replay; what must reproduce is the recorded disagreement
+        let want = w["key"].as_str().unwrap_or("").to_string();
+        keys.retain(|k| *k == want);
         Ok(keys)
     })
 }
